@@ -16,7 +16,7 @@ Classes == {"pk_x_ge_n", "pk_ok", "pk_not_on_curve", "pk_ge_p", "pk_bad_len", "v
             "R_inf", "x_mismatch", "msg_len_0", "msg_len_odd", "msg_len_long", "sig_bad_len", "vector",
             "sign_P_even_R_even", "sign_P_even_R_odd", "sign_P_odd_R_even", "sign_P_odd_R_odd", "aux_zero", "aux_ones",
             "sign_public_api", "sign_reader_fail", "from_point_odd", "from_point_even", "from_point_inf", "from_point_altrep", "from_ecdsa",
-            "self_verify", "immutable"}
+            "self_verify", "immutable", "msg_nil_accept", "msg_nil_sign"}
 
 MsgClasses(m) == (IF Len(m) = 0 THEN {"msg_len_0"} ELSE {}) \cup (IF Len(m) % 32 # 0 THEN {"msg_len_odd"} ELSE {})
                  \cup (IF Len(m) > 64 THEN {"msg_len_long"} ELSE {})
@@ -41,7 +41,8 @@ Verdict(ev) ==
     [] ev.ev = "schnorr.Verify" ->
          LET pk == HB(ev.pk)  msg == HB(ev.msg)  sig == HB(ev.sig) IN
          << ev.out <=> VerifyB(pk, msg, sig),
-            VerifyClasses(pk, msg, sig, ev.out) \cup (IF Has(ev, "vector") /\ ev.vector THEN {"vector"} ELSE {}) >>
+            VerifyClasses(pk, msg, sig, ev.out) \cup (IF Has(ev, "vector") /\ ev.vector THEN {"vector"} ELSE {})
+            \cup (IF Has(ev, "nilmsg") /\ ev.nilmsg /\ ev.out THEN {"msg_nil_accept"} ELSE {}) >>
     [] ev.ev = "schnorr.Sign" ->
          LET sk == HB(ev.d)  msg == HB(ev.msg) IN
          IF ev.kind = "reader_fail" THEN << ~ev.ok /\ ev.sig = "", {"sign_reader_fail"} >>
@@ -56,7 +57,8 @@ Verdict(ev) ==
                {IF HasEvenY(pp) THEN (IF HasEvenY(rr) THEN "sign_P_even_R_even" ELSE "sign_P_even_R_odd")
                                 ELSE (IF HasEvenY(rr) THEN "sign_P_odd_R_even" ELSE "sign_P_odd_R_odd")}
                \cup (IF BigEq(OS2IP(aux), 0) THEN {"aux_zero"} ELSE {}) \cup (IF BigEq(OS2IP(aux), Pow2(256) -- 1) THEN {"aux_ones"} ELSE {})
-               \cup (IF ev.kind = "public" THEN {"sign_public_api"} ELSE {}) \cup MsgClasses(msg) >>
+               \cup (IF ev.kind = "public" THEN {"sign_public_api"} ELSE {}) \cup MsgClasses(msg)
+               \cup (IF Has(ev, "nilmsg") /\ ev.nilmsg THEN {"msg_nil_sign"} ELSE {}) >>
     [] ev.ev = "schnorr.FromPoint" ->
          LET a == ToAffRaw(ev.p) IN
          << IF IsInf(a) THEN ~ev.ok
@@ -74,7 +76,7 @@ Verdict(ev) ==
             /\ ev.sk1 = ev.d /\ ev.bytes1 = IntToHex(PMulG(H(ev.d))[1], W),
             {"immutable"} >>
     [] ev.ev = "schnorr.SelfVerify" ->
-         << ev.self = ev.pubverify /\ (ev.pubverify <=> VerifyB(HB(ev.pk), HB(ev.msg), HB(ev.sig))), {"self_verify", "immutable"} >>
+         << ev.self = ev.pubverify /\ (ev.pubverify <=> VerifyB(HB(ev.pk), HB(ev.msg), HB(ev.sig))), {"self_verify", "immutable", "msg_nil_accept", "msg_nil_sign"} >>
 
 Init == tl = 1 /\ tBad = 0 /\ tCnt = [k \in Classes \cup {"_any"} |-> 0]
 
